@@ -232,6 +232,7 @@ pub fn expr_into_address_keyhash(expr: &tir::Expression) -> Result<primitives::A
 pub fn expr_into_bytes(ir: &tir::Expression) -> Result<primitives::Bytes, Error> {
     match ir {
         tir::Expression::Bytes(x) => Ok(primitives::Bytes::from(x.clone())),
+        tir::Expression::Hash(x) => Ok(primitives::Bytes::from(x.clone())),
         tir::Expression::String(s) => Ok(primitives::Bytes::from(s.as_bytes().to_vec())),
         _ => Err(Error::CoerceError(format!("{ir:?}"), "Bytes".to_string())),
     }
